@@ -223,7 +223,7 @@ def build_and_run(tc, program, schedule, depth=0):
                 placed = True
         else:
             line.append(objs[n])
-    obs_src = getattr(tc, "observer_src", None)
+    obs_src = schedule.get("observer_src") or getattr(tc, "observer_src", None)
     use_obs = bool(schedule.get("observer")) and obs_src is not None and pack == "objects"
     if use_obs:
         o, e = tc.compile(obs_src, cfg, False)
@@ -455,6 +455,13 @@ def minimise(tc, program, failure, budget=40):
         if any(it.get("id") == pid for it in tu["items"]):
             home = tu["name"]
     best_p, best_s = program, sched
+    if sched.get("observer"):
+        # the observer TU (links every unit header, last) is itself a bystander: keep it only if the failure needs it
+        cand = dict(sched, observer=False)
+        if ok(program, cand):
+            best_s = sched = cand
+        else:
+            best_s = sched = dict(sched, observer_src=getattr(tc, "observer_src", None))
     if home is None:
         return best_p, best_s, used[0]
     # 1. drop every TU but the failing one and main, keeping their relative order
@@ -567,7 +574,7 @@ def main(tier, seed, only=None):
     configs = [c for c in configs if shutil.which(c["cxx"])]
     groups = int(os.environ.get("VERIF_C19_GROUPS", "16"))
     programs = covering_programs(cat, rng, groups)
-    nseeded = int(os.environ.get("VERIF_C19_PROGRAMS", "60" if thorough else "8"))
+    nseeded = int(os.environ.get("VERIF_C19_PROGRAMS", "40" if thorough else "8"))
     for i in range(nseeded):
         programs.append(seeded_program(cat, Rng(common.run_seed(seed, i + 1)), i))
     # schedules
@@ -575,11 +582,13 @@ def main(tier, seed, only=None):
     for pi, p in enumerate(programs):
         prng = Rng(common.run_seed(seed, 1000 + pi))
         cover = p["label"].startswith("cover")
-        orders = [["u0", "main"], ["main", "u0"]] if cover else link_orders(p, prng, 24 if thorough else 6)
+        orders = [["u0", "main"], ["main", "u0"]] if cover else link_orders(p, prng, 16 if thorough else 6)
         has_by = any(t["role"] == "bystander" for t in p["tus"])
         for cfg in configs:
             if cover and cfg not in CONFIGS_QUICK and not thorough:
                 continue
+            if not cover and cfg not in CONFIGS_QUICK and pi % 3 != 0:
+                continue    # the extra configurations (LTO, no-PIE, no-inline) take a third of the seeded programs
             for o in orders:
                 jobs.append((pi, {"cfg": cfg, "packaging": "objects", "order": o}))
             if (thorough or pi % 4 == 0) and not cover:
